@@ -116,13 +116,18 @@ def run(run):
                               ("; the two readers disagree on the carriage return" if la != lb else ""),
                               dict(rule_file=t, ci=a, file_reader=b))
         # end to end on a few files: ci / scan / --query-file vs --query
+        together = []       # (text, metadata, query, results of `query --query`) of every file, for one ruleset of them all
+        heads = []
         for i in range(3 if quick else 25):
             q = QG.random_query(rng, kinds=kinds, values=proj.values, depth=1, n_preds=rng.choice([0, 1]), n_entities=1)
             while any("\n" in lx or "\r" in lx for lx in q.lexemes):
                 # a literal that spans lines is the recorded finding (checked above, token by token); end to end
                 # it would only show up again as a changed SELECT value
                 q = QG.random_query(rng, kinds=kinds, values=proj.values, depth=1, n_preds=rng.choice([0, 1]), n_entities=1)
-            text, meta = GR.rule_file(rng, q)
+            # every other file carries the header of the one before it, copied as it is: only the query differs
+            rf = GR.rule_file(rng, q, head=heads[-1] if heads and i % 2 == 1 else None)
+            heads.append(rf.head)
+            text, meta = rf
             rdir = os.path.join(tmp, "rs%d" % i)
             os.makedirs(rdir)
             open(os.path.join(rdir, "r.cql"), "wb").write(text.encode("utf-8"))
@@ -145,6 +150,42 @@ def run(run):
                 if got != base:
                     run.violation("C18:path-result:" + name, "`%s` on the rule file reports other results than `query --query` with the same query" % name,
                                   dict(rule_file=text, query=QG.plain(q), path=name))
+            together.append((text, meta, q, base))
+        # the same files as one ruleset (some share a header word for word, and a file without header fields may
+        # occur more than once): every file still means its own query and its own metadata
+        for rnd in range(1 if quick else 3):
+            rdir = os.path.join(tmp, "all%d" % rnd)
+            os.makedirs(rdir)
+            pick = together if rnd == 0 else rng.sample(together, min(len(together), rng.randint(2, 6)))
+            for j, (text, meta, q, base) in enumerate(pick):
+                open(os.path.join(rdir, "r%03d.cql" % j), "wb").write(text.encode("utf-8"))
+            out = os.path.join(tmp, "ciall%d.json" % rnd)
+            C.cli(["ci", "--project", proj.dir, "--ruleset", rdir, "--output", "json", "--output-file", out, "--disable-metrics"])
+            try:
+                cj = json.load(open(out)) or []
+            except Exception:
+                cj = []
+            stats["e2e_rulesets"] += 1
+            run.count(("e2e-ruleset", rnd, len(pick)))
+            if len(cj) != len(pick):
+                run.violation("C18:ruleset-entries", "`ci` over %d rule files reports %d entries: some file's query was not extracted and reported" % (len(pick), len(cj)),
+                              dict(rules={"r%03d.cql" % j: t[0] for j, t in enumerate(pick)}, entries=[e.get("query") for e in cj]))
+                continue
+            for j, ((text, meta, q, base), entry) in enumerate(zip(pick, cj)):
+                etoks = h.call(op="lex", q=entry.get("query") or "").get("tokens")
+                wtoks = h.call(op="lex", q=QG.plain(q)).get("tokens")
+                if etoks != wtoks:
+                    run.violation("C18:ruleset-entry-query", "in a ruleset of %d files, the query `ci` extracted for file %d is not the token sequence written in it" % (len(pick), j),
+                                  dict(rule_file=text, query=QG.plain(q), entry_query=entry.get("query")))
+                    continue
+                ru = entry.get("rule", {})
+                got_meta = dict(id=ru.get("id"), description=ru.get("description"), severity=ru.get("severity"), impact=ru.get("impact"), provider=ru.get("rule_provider"))
+                want_meta = {k: meta.get(k, "") for k in got_meta}
+                got = E_canon(json.dumps(entry.get("result"))) if entry.get("result") is not None else None
+                if got != base or got_meta != want_meta:
+                    run.violation("C18:ruleset-entry", "in a ruleset of %d files, the entry of file %d carries %s than the file says" %
+                                  (len(pick), j, "other results" if got != base else "other metadata"),
+                                  dict(rule_file=text, query=QG.plain(q), entry_query=entry.get("query"), got_meta=got_meta, want_meta=want_meta))
     finally:
         proj.close()
         shutil.rmtree(tmp, ignore_errors=True)
